@@ -18,3 +18,10 @@ package ecdh
 //@ func GenerateSharedSecret
 //@   requires keyTypes: typeIs[*[32]byte](privKey) && privKey.(*[32]byte) != nil && typeIs[*[32]byte](pubKey) && pubKey.(*[32]byte) != nil
 //@   ensures shape: ret1 == nil ==> len(ret0) == 32 && fresh(ret0)
+
+//@ func GenerateKey
+//@   flag trusted
+//@   ensures keys: ret2 == nil ==> typeIs[*[32]byte](ret0) && ret0.(*[32]byte) != nil && typeIs[*[32]byte](ret1) && ret1.(*[32]byte) != nil && fresh(ret0) && fresh(ret1)
+//@ func Marshal
+//@   requires typeIs[*[32]byte](p) && p.(*[32]byte) != nil
+//@   ensures len(ret0) == 32 && (forall i int :: 0 <= i && i < 32 ==> ret0[i] == (*(p.(*[32]byte)))[i])
